@@ -11,10 +11,13 @@
   the `unreachable` marker, and every read of a local (compiler temporary or declared variable) is preceded on that
   path by an assignment (parameters count as assigned).  What is NOT yet proved is that the builder's output passes
   the checker for all programs (`build_passes_check_full_statement` below): that clause is decided per output.
+  (Added later, see the APPENDED SECTION at the end: the builder IS now proved, for all programs, in the semantic
+  form — `build_passes_check_semantic`.)
 -/
 import QV.Proofs.Cfg
 import QV.Model.Finalize
 import QV.Proofs.BuilderInvBuild
+import QV.Proofs.BuilderInvDefBuild
 
 namespace QV.Props.C06
 open QV.Model QV.Model.Cfg QV.Proofs.Cfg
@@ -161,17 +164,29 @@ end QV.Props.C06
   `check code = true` (which would in addition depend on the untrusted certificate producers computeReach /
   computeIns being complete).
 
-  Proved: (1) jump targets, (2) terminators / the unreachable marker, and their combination = the control-flow
-  half of `checkCfg_sound`'s conclusion.
-  (3) define-before-use: the attempt to set up its invariant ("the name map only holds locals that are assigned
-  on every path to the current block") failed at `walkBodies`: all clauses of a `switch` shared one name map, but
+  Proved: (1) jump targets, (2) terminators / the unreachable marker, (3) define-before-use, and their combination
+  (4) = the WHOLE conclusion of `checkCfg_sound`, for every output of the builder and every path
+  (`build_passes_check_semantic`), reads of the variables the user declared without initialiser exempted as in the
+  driver's `checkExempting`.  (1), (2a) and (3) need no hypothesis at all; (2b), (2c) and (4) need `panic = none`.
+
+  (3) is proved in `QV.Proofs.BuilderInvDef{Base,Visit,Ctl,Walk,Stmt,Build}` by constructing, along the walk, a
+  certificate `ins` ("assigned whenever control arrives at block i") that is consistent with everything built so
+  far: a block that starts a branch claims what its branching block knows, a join block claims what was known
+  before the construct plus the construct's result temporary, the block after `break`/`return` (dead code) what was
+  known there; the name map only holds variables that are assigned at the current point or were declared without
+  initialiser; `finalize_completion_values` keeps statements and only installs `return`s of completion values that
+  were covered when they were set.
+  The first attempt at that invariant FAILED at `walkBodies`: all clauses of a `switch` shared one name map, but
   a clause is entered by a jump from the switch head, so a variable declared WITH initialiser in an earlier clause
   could be read in a later clause without having been assigned.  Running the real compiler at that point confirmed
   the defect (finding F100: `switch (a.value) { case 1: let v = a.value + 10; case 2: return v; }` was accepted,
   exit status 0, and the emitted C++ reached `return a5;` from the head with `a5` never assigned); repaired in
   /repo by 0aff63c (every clause starts from the name map before the switch) and in the model; `f100BodyOld` below
-  is the pre-repair output, with the kernel-checked witness `f100_defines_before_use_old_refuted`.
-  The statements that remain open are kept as `def … : Prop`. -/
+  is the pre-repair output, with the kernel-checked witness `f100_defines_before_use_old_refuted`.  The theorem
+  holds for the repaired compiler.
+  The pre-existing `build_passes_check_full_statement` (`check code = true`) stays a definition: it is not the
+  statement to prove — it lacks the exemption (the accepted program `{ let v: int; return v }` reads `v`
+  unassigned, which is the user's error) and it would depend on the untrusted certificate producers. -/
 
 namespace QV.Props.C06
 open QV.Model QV.Model.Cfg QV.Proofs.Cfg
@@ -214,8 +229,8 @@ theorem build_control_flow_sound (ctx : Ctx) (callback : Bool) (p : Program) (co
         t ≠ Terminator.unreachable ∧ (∀ j ∈ successors b.terminator, j < code.blocks.length) :=
   QV.Proofs.BuilderInv.build_control_flow_sound ctx callback p code h hp
 
-/-- (3), open (it was false before the repair 0aff63c, see `f100BodyOld`): on every path, every read of a local that
-    the user did not declare without initialiser is preceded by an assignment. -/
+/-- the statement of (3): on every path, every read of a local that the user did not declare without initialiser
+    is preceded by an assignment (it was false before the repair 0aff63c, see `f100BodyOld`) -/
 def build_defines_before_use_full_statement : Prop :=
   ∀ (ctx : Ctx) (callback : Bool) (p : Program) (code : CodeBody),
     (build ctx callback p).code = some code → (build ctx callback p).panic = none →
@@ -225,7 +240,7 @@ def build_defines_before_use_full_statement : Prop :=
       (∀ t, b.terminator = some t →
         ∀ x ∈ termReads t, x ∉ (build ctx callback p).userUninit → x ∈ defsOf b.statements ++ A)
 
-/-- (4), the whole of it in the semantic form: `build_control_flow_sound` ∧ (3).  Open with (3). -/
+/-- the statement of (4), the whole of it in the semantic form -/
 def build_passes_check_semantic_full_statement : Prop :=
   ∀ (ctx : Ctx) (callback : Bool) (p : Program) (code : CodeBody),
     (build ctx callback p).code = some code → (build ctx callback p).panic = none →
@@ -237,12 +252,27 @@ def build_passes_check_semantic_full_statement : Prop :=
           ∀ x ∈ stmtReads s, x ∉ (build ctx callback p).userUninit → x ∈ defsOf (b.statements.take k) ++ A) ∧
         (∀ x ∈ termReads t, x ∉ (build ctx callback p).userUninit → x ∈ defsOf b.statements ++ A)
 
-/-- the two open statements differ exactly by the proved half -/
-theorem build_passes_check_semantic_of_defines_before_use :
-    build_defines_before_use_full_statement → build_passes_check_semantic_full_statement := by
-  intro h3 ctx callback p code h hp i A hr
+/-- **(3) Define before use, for every output of the builder and every path** — no hypothesis on diagnostics or
+    panics: a read of a local (compiler temporary or variable declared with initialiser) is preceded, on the path,
+    by an assignment; parameters count as assigned; variables declared without initialiser are exempt. -/
+theorem build_defines_before_use (ctx : Ctx) (callback : Bool) (p : Program) (code : CodeBody)
+    (h : (build ctx callback p).code = some code) :
+    ∀ (i : Nat) (A : List Nat), Reaches code i A → ∀ b, code.blocks[i]? = some b →
+      (∀ (k : Nat) (s : Statement), b.statements[k]? = some s →
+        ∀ x ∈ stmtReads s, x ∉ (build ctx callback p).userUninit → x ∈ defsOf (b.statements.take k) ++ A) ∧
+      (∀ t, b.terminator = some t →
+        ∀ x ∈ termReads t, x ∉ (build ctx callback p).userUninit → x ∈ defsOf b.statements ++ A) :=
+  QV.Proofs.BuilderInv.build_defines_before_use ctx callback p code h
+
+theorem build_defines_before_use_full : build_defines_before_use_full_statement :=
+  fun ctx callback p code h _ => build_defines_before_use ctx callback p code h
+
+/-- **(4) Every output of the builder satisfies the whole conclusion of `checkCfg_sound`, on every path** (semantic
+    form; reads of user-uninitialised variables exempt) -/
+theorem build_passes_check_semantic : build_passes_check_semantic_full_statement := by
+  intro ctx callback p code h hp i A hr
   obtain ⟨b, t, hb, ht, hne, htg⟩ := build_control_flow_sound ctx callback p code h hp i A hr
-  obtain ⟨h1, h2⟩ := h3 ctx callback p code h hp i A hr b hb
+  obtain ⟨h1, h2⟩ := build_defines_before_use ctx callback p code h i A hr b hb
   exact ⟨b, t, hb, ht, hne, htg, h1, h2 t ht⟩
 
 /-- the (pre-analysis) body the REAL compiler emitted BEFORE the repair 0aff63c for
